@@ -1,4 +1,5 @@
 """C06 - index operations track NumPy on the dense array over any history (DESIGN.md 3, C06)."""
+from .. import giant as G
 from .. import machine as M
 from ..core import Sub
 
@@ -17,7 +18,13 @@ RULE = (
     "operands other than the receiver must be byte-identical before and after; requested copies must not share "
     "memory. Evaluations = histories (up to 25 steps each; steps are reported separately). Non-trivial = a history "
     "with >= 3 mutating steps containing append-after-shift, update-after-append, a reindex that merges values, or "
-    "a collapse whose precedence omits a present value. Distinct by the full operation list."
+    "a collapse whose precedence omits a present value. Distinct by the full operation list. giant: histories of 3..11 "
+    "operations over indexes with 2^31-3 .. 2^32-1 rows and at most 8 listed rows per column (both ends and around "
+    "2^31), with a SPARSE model {key: set(rows)}: append (giant + small, small + giant, giant + giant up to exactly "
+    "2^32 rows), the three set updates, sliced, slices1d, copy, column_stack, reindexed - the operations whose cost does "
+    "not depend on the row count; after every step every live index must hold exactly the model's entries (uint32, "
+    "strictly increasing), shape, common value and size. Non-trivial = an append that shifts row ids beyond 2^31 plus "
+    "another kind of operation."
 )
 ASSUMPTIONS = [
     "index entries handed to the library are sorted unique uint32 arrays with int coordinates",
@@ -34,4 +41,7 @@ def runner(sub, tier, seed, shard, nshards, rec):
     M.run_machine(sub, tier, seed, shard, nshards, rec, "C06", EX, STEPS)
 
 
-SUBS = [Sub("histories", M.replay, runner=runner, examples=EX, weight=5)]
+SUBS = [
+    Sub("histories", M.replay, runner=runner, examples=EX, weight=5),
+    Sub("giant", G.check, strategy=G.histories, examples={"quick": 1500, "thorough": 60000}),
+]
